@@ -801,7 +801,9 @@ fn run_ops<A: AbcX>(be: &str, seed: u64, ops: &[&str]) -> String {
                 });
                 drop(guard);
                 match r {
-                    None => format!("score|{}|P", params),
+                    // (after a panic: rows and capacity of the score matrix as the unwinding call left it — the generic
+                    // code resizes before its checked index panics, the SIMD wrappers panic before touching it)
+                    None => format!("score|{}|P,{},{}", params, st.fs.matrix().rows(), st.fs.matrix().capacity()),
                     Some(()) => format!("score|{}|{},{},{}", params, st.fs.matrix().rows(), st.fs.matrix().capacity(), plain_fatal("the f32 score matrix", canary_check(st.fs.matrix(), can))),
                 }
             }
@@ -815,7 +817,7 @@ fn run_ops<A: AbcX>(be: &str, seed: u64, ops: &[&str]) -> String {
                 let r = no_panic(|| A::score_u8(&pli, dm, striped, rows.clone(), us));
                 drop(guard);
                 match r {
-                    None => format!("uscore|{}|P", params),
+                    None => format!("uscore|{}|P,{},{}", params, st.us.matrix().rows(), st.us.matrix().capacity()),
                     Some(false) => format!("uscore|{}|U", params),
                     Some(true) => format!("uscore|{}|{},{},{}", params, st.us.matrix().rows(), st.us.matrix().capacity(), plain_fatal("the u8 score matrix", canary_check(st.us.matrix(), can))),
                 }
@@ -1617,7 +1619,7 @@ fn run_child_env(exe: &str, asan: bool, lines: &[String], guard: Option<&str>) -
                 lastop = rest.replace(' ', ":");
             } else if let Some(rest) = l.strip_prefix("END ") {
                 let recs = rest.split_once(' ').map(|x| x.1).unwrap_or("");
-                let panicked = recs.split(';').any(|r| r.ends_with("|P"));
+                let panicked = recs.split(';').any(|r| r.ends_with("|P") || r.contains("|P,"));
                 res.push(ChildOut {
                     verdict: if panicked { "PANIC".to_string() } else { "CLEAN".to_string() },
                     records: Some(recs.to_string()),
